@@ -10,6 +10,7 @@ from cssutils.tokenize2 import Tokenizer
 from vlib.runner import Sub, Violation, lib
 
 PROPERTY = 'C05'
+HANG_WATCH = 20  # seconds of CPU on one case after which the runner kills the worker and reports hang:cpu-bound
 RULE = (
     'tiling: texts = concatenations of 1..14 fragments from an alphabet of single characters '
     '(all delimiters, white space/line-break conventions, backslash, BOM characters, NUL, non-ASCII, astral, '
